@@ -183,10 +183,21 @@ class PlanJoinTSPredictorQuery:
 
         predictor_metadata = self.planner.get_predictor(predictor)
 
-        predictor_time_column_name = predictor_metadata['order_by_column']
-        predictor_group_by_names = predictor_metadata['group_by_columns']
+        # the settings come from the caller's catalog: a missing or mistyped one is the user's problem, not a crash
+        predictor_time_column_name = predictor_metadata.get('order_by_column')
+        if not isinstance(predictor_time_column_name, str):
+            raise PlanningException(
+                f'Time-series predictor {predictor} has no usable order_by_column setting: {predictor_time_column_name!r}')
+        predictor_group_by_names = predictor_metadata.get('group_by_columns')
         if predictor_group_by_names is None:
             predictor_group_by_names = []
+        if not isinstance(predictor_group_by_names, (list, tuple)) \
+                or not all(isinstance(i, str) for i in predictor_group_by_names):
+            raise PlanningException(
+                f'Time-series predictor {predictor}: group_by_columns must be a list of column names, '
+                f'found: {predictor_group_by_names!r}')
+        if 'window' not in predictor_metadata:
+            raise PlanningException(f'Time-series predictor {predictor} has no window setting')
         predictor_window = predictor_metadata['window']
 
         if query.order_by:
